@@ -85,7 +85,9 @@ func runJpgo(bin string, args []string, stdin []byte, pieces int) jpRun {
 	return r
 }
 
-var c19BadExprs = []string{"`\"a\tb\"`", "`\"line\nbreak\"`", "\"a\tb\"", "a.", "a[", "a b", "[?", "a ||", "{a:", "f(a b)", "&a", "a[0:1:2:3]", "@(x)", "#", "a#", "'abc", "`{`", "\"\\x\"", "=", "a = b", "", " ", "é", "[0", "a..b", ")", "a)", "[a", "*.[", "a[99999999999999999999]"}
+var c19BadExprs = []string{"`\"a\tb\"`", "`\"line\nbreak\"`", "\"a\tb\"", "a.", "a[", "a b", "[?", "a ||", "{a:", "f(a b)", "&a", "a[0:1:2:3]", "@(x)", "#", "a#", "'abc", "`{`", "\"\\x\"", "=", "a = b", "", " ", "é", "[0", "a..b", ")", "a)", "[a", "*.[", "a[99999999999999999999]",
+	// white space that is not JMESPath white space (space, tab, LF, CR), at the ends of an otherwise valid expression: nothing may "repair" it
+	"\va", "a\f", "\u00a0a", "a\u00a0", "\u3000a\u3000", "a.b\u0085", "\u2028a", "s\u2029", "\ufeffa", "n\u200b", "\u1680arr", "\u2000a\u2000", "\fa.b[0]\v", "\u2003sort(arr)", "arr[0]\u205f", "\x1fa", "a\x7f"}
 
 var c19Inputs = []struct {
 	name  string
@@ -161,6 +163,25 @@ var c19Inputs = []struct {
 	{"trailing comma", `[1, 2,]`, false},
 	{"NaN", `NaN`, false},
 	{"bare word", `nul`, false},
+	{"object followed by a stray closing brace", `{"a": 1}}`, false},
+	{"array followed by a stray closing bracket", `[1, 2]]`, false},
+	{"string followed by a stray closing brace", `"s" }`, false},
+	{"object followed by a stray closing bracket", "{\"a\": {\"b\": [1]}, \"s\": \"x\"}\n]", false},
+	{"array followed by a stray closing brace", `[1, 2] }`, false},
+	{"number followed by a stray closing bracket", `1]`, false},
+	{"null followed by a stray closing brace", `null}`, false},
+	{"object followed by a comma", `{"a": 1},`, false},
+	{"object followed by a colon", `{"a": 1}:`, false},
+	{"array followed by an opening bracket", `[1, 2][`, false},
+	{"object followed by a quote", `{"a": 1}"`, false},
+	{"object followed by a digit", `{"a": 1}0`, false},
+	{"array followed by a minus sign", `[1]-`, false},
+	{"a stray closing bracket alone", `]`, false},
+	{"value after a first value on the next line", "{\"a\": 1}\n\n[2]", false},
+	{"repeated member names", `{"a": 1, "a": {"b": [7]}, "s": "first", "s": "second", "n": 1, "n": 2}`, true},
+	{"lone surrogate escapes", `{"a": "\ud800", "s": "x\udc00y", "arr": ["\ud83d", "\ude00"]}`, true},
+	{"integers float64 cannot hold", `{"id": 9007199254740993, "a": 9007199254740993, "n": 18446744073709551615, "t": -9007199254740993, "s": 123456789012345678901234567890, "arr": [9007199254740993, 3, 18446744073709551615, -9223372036854775809], "objs": [{"n": 9007199254740993, "s": "big"}, {"n": 1, "s": "small"}]}`, true},
+	{"numbers in unusual but valid spellings", `{"a": 1.0, "n": 1e2, "t": 1E-2, "s": -0.0, "arr": [1.50, 100e-2, 0e0, 2.5E+1, 0.000001, 1e-400], "objs": [{"n": 10e-1, "s": "x"}, {"n": 1.000, "s": "y"}]}`, true},
 }
 
 func init() {
@@ -237,6 +258,18 @@ func c19(r *mon.Run) {
 		// words a command-line program might take for a sub-command or a flag value: here they are field names
 		"version", "help", "h", "v", "usage", "completion", "input", "stdin", "file", "filename", "expr", "ast", "true", "false", "null", "test", "run", "env", "list", "get", "jpgo", "version.number", "help || s", "[version, help]", "{version: n, help: s}"}
 	evalErr := []string{"abs('x')", "abs()", "nosuchfn(@)", "arr[::0]", "sort_by(objs, &@)", "length(n)", "[abs(s), n]", "objs[*].abs(s)", "merge(@, `1`)", "to_string(&a)", "sum(a)", "max(`[1, \"a\"]`)"}
+	// number-sensitive expressions, crossed systematically with the number-heavy inputs and both plain channels (the first invocations of every run):
+	// the printed text must be that of the value the library computes from the input as encoding/json decodes it
+	numExprs := []string{"type(id)", "id > `0`", "abs(id)", "arr[?@ > `0`]", "sort(arr)", "max(arr)", "sum(arr)", "id == `9007199254740992`", "to_string(id)", "to_number(id)", "ceil(id)", "not_null(id)", "arr[*].type(@)", "avg(arr)",
+		"id < `1e300`", "[id][0]", "{k: id}.k | type(@)", "contains(arr, id)", "arr | length(@)", "sort_by(objs, &n)[*].s", "max_by(objs, &n).s", "objs[?n > `1`].s", "a == id", "n", "t", "s", "type(s)", "arr", "floor(n)", "n > t", "[a, n, t, s]", "to_string(@)", "min(arr)", "arr[?@ == `3`]", "type(a)", "a", "abs(s)", "objs[*].n", "to_string(arr)"}
+	var numInputs []int
+	for k, in := range c19Inputs {
+		switch in.name {
+		case "integers float64 cannot hold", "numbers in unusual but valid spellings", "numbers", "big numbers", "numbers with 16 and 17 significant digits":
+			numInputs = append(numInputs, k)
+		}
+	}
+	nSystematic := len(numExprs) * len(numInputs) * 2
 	n := tierPick(r, 4000, 40000)
 	w := mon.Workload{Name: "invocations", N: n, Batch: 50,
 		Describe: func(i int) string { return fmt.Sprint("invocation ", i) },
@@ -269,8 +302,13 @@ func c19(r *mon.Run) {
 			if i%3 == 0 {
 				ii = rng.Intn(36) // favour valid input
 			}
-			in := c19Inputs[ii]
 			channel := []string{"stdin", "file", "missing file", "file through a symbolic link", "/dev/stdin as the file"}[[]int{0, 0, 1, 1, 1, 2, 3, 3, 4}[rng.Intn(9)]]
+			if i < nSystematic {
+				expr, tree, kind = numExprs[i%len(numExprs)], nil, "valid"
+				ii = numInputs[(i/len(numExprs))%len(numInputs)]
+				channel = []string{"stdin", "file"}[i/(len(numExprs)*len(numInputs))]
+			}
+			in := c19Inputs[ii]
 			dashdash := rng.Bool()
 			var args []string
 			var stdin []byte
@@ -372,7 +410,7 @@ func c19(r *mon.Run) {
 				if res.Skipped != "" || len(res.Outcomes) > 1 {
 					same = agree(res, mon.Observed{V: printed}, mon.Observed{V: normJSON(lib.V)})
 				}
-			} else if !same && (strings.Contains(expr, "*") || strings.Contains(expr, "keys") || strings.Contains(expr, "values")) {
+			} else if !same && i >= nSystematic && (strings.Contains(expr, "*") || strings.Contains(expr, "keys") || strings.Contains(expr, "values")) {
 				same = true // fixed-list expression iterating object members: order is unspecified
 				t.Count("not compared: member order")
 			}
